@@ -43,6 +43,9 @@ def to_hy(t, ind=0):
                 "for": f"(for [{n} [{v}]] None)"}[how]
     if k == "log":
         return f'(LOG "{t[1]}" (fn [] {t[1]}))'
+    if k == "log2":
+        # two direct references in the current scope (no thunk): every occurrence of a name must be resolved
+        return f'(LOGV "{t[1]}{t[1]}" #({t[1]} {t[1]}))'
     if k in ("nonlocal", "global"):
         return f"({k} {t[1]})"
     if k == "def":
@@ -155,6 +158,10 @@ def to_py(prog):
                     n = r[0] if r else t[2]
                     emit(f"for {n} in [{t[3]}]: pass" if t[1] == "for" else f"{n} = {t[3]}", ind)
                     note(pyscope, n)
+                elif k == "log2":
+                    r = resolve(t[1], env)
+                    n = r[0] if r else t[1]
+                    emit(f"LOGV({(t[1] * 2)!r}, ({n}, {n}))", ind)
                 elif k == "log":
                     r = resolve(t[1], env)
                     n = r[0] if r else t[1]
@@ -317,5 +324,6 @@ def spine_programs(levels, pre_opts, post_opts, inner_opts, wrap_function=False)
 SETV = lambda n: (lambda v: ("setv", n, v()))
 BIND = lambda how, n: (lambda v: ("bind", how, n, v()))
 LOG = lambda n: (lambda v: ("log", n))
+LOG2 = lambda n: (lambda v: ("log2", n))
 NONLOCAL = lambda n: (lambda v: ("nonlocal", n))
 GLOBAL = lambda n: (lambda v: ("global", n))
